@@ -928,7 +928,7 @@ RULE = ('per harness TU every operation sequence its op masks admit (depth 1: al
         'caller-supplied outputs of the right shape (both layouts) and of a wrong shape; fixed/bounded/dynamic operand storage; maybe-typed views. '
         'non-trivial = depth >= 2, a tree, a caller-supplied output, a maybe-typed view, or a non-dynamic storage kind. '
         'Mixed scope (op mixb / mixu): every ordered pairing of operand kinds fixed_ndarray / hybrid_ndarray / dynamic ndarray / raw array / nested std::array / '
-        'std::vector / number (std::vector only with rank-1-capable partners; 43 pairings) x element-type pairs from {i32,f32,f64,i8,u8}^2 (quick: (f64,i32), (i32,f64), (i8,u8) for add on '
+        'std::vector / number (std::vector only with rank-1-capable partners; 40 pairings) x element-type pairs from {i32,f32,f64,i8,u8}^2 (quick: (f64,i32), (i32,f64), (i8,u8) for add on '
         'every pairing + a 1/23 sample of all (pair, function in add/multiply/subtract/less) combinations; thorough: all 25 pairs for add + a 1/11 sample) and unary '
         'negative / fabs / positive on every kind x element type: element type and every element of bare eval(view) (older resolver eval_t) and of array::fn vs the lazy view vs NumPy')
 EXHAUSTIVE = {'quick': False, 'thorough': False}
